@@ -18,8 +18,8 @@ directive lists that are permutations of each other (`ds.Perm ds'`):
   clips the report window is the same.
 
 `Properties/C05Verdict.lean` proves that the checker's accept/reject verdict is invariant
-(`C05_verdict_perm`).  Not mechanised (PARTIAL): that the *set* of report inserts of the balance pipeline is
-invariant under permutations inside a (day, kind) block (prices under the exclusion of same-day clashes).
+(`C05_verdict_perm`).  `Properties/C05Inserts.lean` proves the same for the unvalued balance report down to the output bytes
+(`C05_balance_output_perm`).  Not mechanised (PARTIAL): the valued report (prices under the exclusion of same-day clashes).
 That is decided on every run by the metamorphic check: each
 generated journal is rendered in several directive orders and include-tree layouts, loaded by the REAL
 concurrent loader under several schedule seeds, and `check` verdict, `balance` output (byte for byte) and
